@@ -46,6 +46,10 @@ pub struct Case {
     /// say so: (sample selector, indel selector)
     #[serde(default)]
     pub mixed: Option<(u16, u16)>,
+    /// the first indel is one unit of a tandem repeat: behind it the unit is repeated over k-3, k-4, k-5 or k-6
+    /// bases (selector), then the periodicity breaks
+    #[serde(default)]
+    pub str_tract: Option<u8>,
 }
 
 fn case_strategy() -> BoxedStrategy<Case> {
@@ -61,9 +65,9 @@ fn case_strategy() -> BoxedStrategy<Case> {
         prop_oneof![2 => Just(None), 1 => (any::<u16>(), any::<u16>()).prop_map(Some)],
         prop::bool::weighted(0.3),
         prop_oneof![6 => Just(None), 1 => (any::<u8>(), any::<u8>()).prop_map(Some)],
-        (prop_oneof![1 => Just(None), 1 => (any::<u8>(), 1u8..4, 1u8..4).prop_map(Some)], prop_oneof![7 => Just(None), 1 => (any::<u16>(), any::<u16>()).prop_map(Some)]),
+        (prop_oneof![1 => Just(None), 1 => (any::<u8>(), 1u8..4, 1u8..4).prop_map(Some)], prop_oneof![7 => Just(None), 1 => (any::<u16>(), any::<u16>()).prop_map(Some)], prop_oneof![6 => Just(None), 1 => any::<u8>().prop_map(Some)]),
     )
-        .prop_map(|(k, n_samples, material, lead, tail, indels, orient, threads, trunc, twin, hairpin, (paralog, mixed))| Case { k, n_samples, material, lead, tail, indels, orient, threads, trunc, twin, hairpin, paralog, mixed })
+        .prop_map(|(k, n_samples, material, lead, tail, indels, orient, threads, trunc, twin, hairpin, (paralog, mixed, str_tract))| Case { k, n_samples, material, lead, tail, indels, orient, threads, trunc, twin, hairpin, paralog, mixed, str_tract })
         .boxed()
 }
 
@@ -203,6 +207,22 @@ pub fn materialise(c: &Case) -> Result<Mat, String> {
         let (p0, ln, p1) = (planned[0].0, planned[0].1, planned[1].0);
         let seg = anc[p0..p0 + ln].to_vec();
         anc[p1..p1 + ln].copy_from_slice(&seg);
+    }
+    if let (Some(sel), false) = (c.str_tract, c.twin) {
+        let (p0, ln) = (planned[0].0, planned[0].1);
+        let t = k - 3 - (sel as usize % 4);
+        let unit: Vec<u8> = anc[p0..p0 + ln].to_vec();
+        for i in 0..t {
+            anc[p0 + ln + i] = unit[i % ln];
+        }
+        let next = |b: u8| model::BASES[(model::BASES.iter().position(|x| *x == b).unwrap() + 1) % 4];
+        // the periodicity ends behind the stretch and does not reach back in front of the indel
+        if anc[p0 + ln + t] == unit[t % ln] {
+            anc[p0 + ln + t] = next(anc[p0 + ln + t]);
+        }
+        if anc[p0 - 1] == unit[ln - 1] {
+            anc[p0 - 1] = next(anc[p0 - 1]);
+        }
     }
     if let (Some((dsel, b1, b2)), true) = (c.paralog, planned.len() >= 2 && !c.twin) {
         let w = k - 1;
@@ -369,6 +389,9 @@ fn strata_of(c: &Case, m: &Mat, i: usize) -> Vec<&'static str> {
     if c.twin && m.indels.len() >= 2 && i < 2 {
         v.push("twin(same_sequence_and_carriers_at_two_loci)");
     }
+    if let (Some(sel), false, true, 0) = (c.str_tract, c.twin, c.hairpin.is_none(), i) {
+        v.push(["repeat_unit_next_to_a_periodic_stretch_of_k-3_bases", "repeat_unit_next_to_a_periodic_stretch_of_k-4_bases", "repeat_unit_next_to_a_periodic_stretch_of_k-5_bases", "repeat_unit_next_to_a_periodic_stretch_of_k-6_bases"][sel as usize % 4]);
+    }
     if c.paralog.is_some() && !c.twin && c.hairpin.is_none() && m.indels.len() >= 2 && i < 2 {
         v.push("two_loci_with_near_copies_of_the_same_flanks");
         if matches!(c.paralog, Some((_, 1 | 2, 1 | 2))) {
@@ -458,7 +481,7 @@ fn check_long_flanks(lc: &LongFlankCase, ctx: &Ctx) -> Outcome {
     let fwd: Vec<Vec<u8>> = cs.iter().map(|del| if *del { [l.clone(), r.clone()].concat() } else { anc.clone() }).collect();
     let samples: Vec<Sample> = fwd.iter().enumerate().map(|(j, sq)| (format!("g{j}"), vec![if (lc.seed >> j) & 1 == 1 { model::revcomp(sq) } else { sq.clone() }])).collect();
     let m = Mat { ancestor: anc, indels: vec![(p, ins.len(), cs)], fwd, samples, trunc: None, mixed: None };
-    let c = Case { k, n_samples: lc.n_samples, material: vec![], lead: lc.left as u16, tail: 0, indels: vec![], orient: vec![false], threads: lc.threads, trunc: None, twin: false, hairpin: None, paralog: None, mixed: None };
+    let c = Case { k, n_samples: lc.n_samples, material: vec![], lead: lc.left as u16, tail: 0, indels: vec![], orient: vec![false], threads: lc.threads, trunc: None, twin: false, hairpin: None, paralog: None, mixed: None, str_tract: None };
     match check_mat(&c, m, ctx) {
         Outcome::Fail(msg) => Outcome::Fail(format!("flanks of {} and {} bases shared by all samples, indel of {} bases: {}", lc.left, lc.right, lc.ins_len, crate::engine::truncate(&msg, 700))),
         o => o,
@@ -662,7 +685,7 @@ fn post(rt: &mut Runtime) {
     }
 }
 
-const RULE: &str = "generated: ancestor (all insertions present) with unique (k-1)-mers on both strands, 1-3 indels of length 1..min(10,k-1) at least 4k apart and 2k from the ends, carrier sets non-empty and proper over 3-8 samples, in 30% of the multi-indel cases the second indel removes the same sequence from the same carriers as the first (two loci, two records expected), in a seventh of the cases a single indel of a sequence equal to its own reverse complement (AT, GATC, GAATTC, ...) between inverted flanks W..rc(W) with |W| >= k-1 (every (k-1)-mer still occurs once in each sequence as written; the two strands of that locus read alike), in half of the multi-indel cases without twins the k-1 bases before and behind the second indel are those of the first with one substitution each (a transition, or the transversion to the complementary base) at the same distance from the junction (a diverged duplicate of the locus), the union of all derived samples re-checked: a (k-1)-mer may recur only at the same ancestor coordinates (rejections counted), samples randomly reverse-complemented, k in {11,15,21,31}, threads 1-4; in a third of the cases one of >= 4 samples is truncated >= 2k before an indel (neither form present: must be genotyped '.', run with -m 0.4); in an eighth of the cases one of >= 4 samples holds a second record with one indel in its other form (both alleles present: 0/1 or '.', never a plain 0 or 1; run with -m 0.4; that indel is not counted for recall). Oracle per record: before+REF+after (or its reverse complement) occurs in exactly the samples genotyped 0, before+ALT+after in exactly those genotyped 1, '.' iff neither or both; the record matches one planted indel by length and carriers, none twice, none unmatched; aggregate recall >= 90% (checked when >= 200 planted), also within each stratum of >= 150 planted indels, and in smaller strata when fewer are reported than a recall of 90 % can explain (probability < 1e-5) (twin pairs, self-complementary indels between inverted flanks, loci with near-copies of the same flanks and among them those with a transition on either side, junction homology >= indel length, no junction homology, carried by exactly half of the samples, singleton carrier, length classes). Non-trivial: >= 1 indel reported.";
+const RULE: &str = "generated: ancestor (all insertions present) with unique (k-1)-mers on both strands, 1-3 indels of length 1..min(10,k-1) at least 4k apart and 2k from the ends, carrier sets non-empty and proper over 3-8 samples, in 30% of the multi-indel cases the second indel removes the same sequence from the same carriers as the first (two loci, two records expected), in a seventh of the cases a single indel of a sequence equal to its own reverse complement (AT, GATC, GAATTC, ...) between inverted flanks W..rc(W) with |W| >= k-1 (every (k-1)-mer still occurs once in each sequence as written; the two strands of that locus read alike), in half of the multi-indel cases without twins the k-1 bases before and behind the second indel are those of the first with one substitution each (a transition, or the transversion to the complementary base) at the same distance from the junction (a diverged duplicate of the locus), the union of all derived samples re-checked: a (k-1)-mer may recur only at the same ancestor coordinates (rejections counted), samples randomly reverse-complemented, k in {11,15,21,31}, threads 1-4; in a third of the cases one of >= 4 samples is truncated >= 2k before an indel (neither form present: must be genotyped '.', run with -m 0.4); in a seventh of the cases the first indel is one unit of a tandem repeat that continues behind it over k-3, k-4, k-5 or k-6 bases (a stratum each); in an eighth of the cases one of >= 4 samples holds a second record with one indel in its other form (both alleles present: 0/1 or '.', never a plain 0 or 1; run with -m 0.4; that indel is not counted for recall). Oracle per record: before+REF+after (or its reverse complement) occurs in exactly the samples genotyped 0, before+ALT+after in exactly those genotyped 1, '.' iff neither or both; the record matches one planted indel by length and carriers, none twice, none unmatched; aggregate recall >= 90% (checked when >= 200 planted), also within each stratum of >= 150 planted indels, and in smaller strata when fewer are reported than a recall of 90 % can explain (probability < 1e-5) (twin pairs, self-complementary indels between inverted flanks, loci with near-copies of the same flanks and among them those with a transition on either side, junction homology >= indel length, no junction homology, carried by exactly half of the samples, singleton carrier, length classes). Non-trivial: >= 1 indel reported.";
 
 fn stages(tier: Tier) -> Vec<Box<dyn Stage>> {
     vec![
